@@ -515,10 +515,113 @@ impl<C: Suite> Model for M02<C> {
     }
 }
 
+// ---- honest tuples whose signature or key has a searched byte pattern, received through every decoder ------------
+//
+// "Exactly the signature verifies" includes that THE signature verifies however its holder received it. The message and
+// key alphabets hold values found by search whose signature (under the first derived key) or public key has an encoding
+// next to what a decoder special-cases: a coordinate starting with the first one / two / three bytes of the field
+// modulus, 16 leading zero bits, a tail of CR LF / NUL NUL / spaces. State: (key, message, scheme, codec of the
+// signature, codec of the key); the received tuple must verify, and must not for the neighbouring message.
+
+#[derive(Clone, Debug, PartialEq, Eq, Hash, Serialize, Deserialize)]
+pub struct PatSt {
+    /// index into the pattern key list (0 = the first derived key, under which the pattern messages were searched)
+    k: usize,
+    m: usize,
+    s: Scheme,
+    sig_c: Codec,
+    pk_c: Codec,
+}
+
+pub struct M02Pattern<C: Suite> {
+    keys: Vec<(String, SecretKey<C>)>,
+    msgs: Vec<(String, Vec<u8>)>,
+    _c: PhantomData<C>,
+}
+
+impl<C: Suite> M02Pattern<C> {
+    pub fn new(seed: u64) -> Self {
+        let ka = key_alphabet(seed, false);
+        let mut keys = vec![(ka.names[3].clone(), sk_from_be::<C>(&ka.be[3]).unwrap())];
+        keys.extend(pattern_keys(seed).into_iter().map(|(n, b)| (n, sk_from_be::<C>(&b).unwrap())));
+        let ma = msg_alphabet(seed, false);
+        let mut msgs: Vec<(String, Vec<u8>)> = vec![("plain".into(), b"c02 pattern plain message".to_vec())];
+        msgs.extend(ma.names.iter().zip(ma.msgs.iter()).filter(|(n, _)| n.contains("content=pattern:")).map(|(n, m)| (n.clone(), m.clone())));
+        M02Pattern { keys, msgs, _c: PhantomData }
+    }
+}
+
+impl<C: Suite> Model for M02Pattern<C> {
+    type State = Option<PatSt>;
+    type Action = PatSt;
+    fn name(&self) -> String {
+        format!("c02-searched-byte-patterns-through-every-decoder/{}", C::G)
+    }
+    fn init(&self) -> Vec<Option<PatSt>> {
+        vec![None]
+    }
+    fn actions(&self, st: &Option<PatSt>) -> Vec<PatSt> {
+        if st.is_some() {
+            return vec![];
+        }
+        let mut v = vec![];
+        for s in SCHEMES {
+            for c in DECODERS {
+                // pattern messages under the first derived key: the signature travels
+                for m in 0..self.msgs.len() {
+                    v.push(PatSt { k: 0, m, s, sig_c: c, pk_c: Codec::None });
+                }
+                // pattern keys with the plain message: the key travels, and key and signature together
+                for k in 1..self.keys.len() {
+                    v.push(PatSt { k, m: 0, s, sig_c: Codec::None, pk_c: c });
+                    v.push(PatSt { k, m: 0, s, sig_c: c, pk_c: c });
+                }
+            }
+        }
+        v
+    }
+    fn step(&self, _s: &Option<PatSt>, a: &PatSt) -> Option<Option<PatSt>> {
+        Some(Some(a.clone()))
+    }
+    fn describe(&self, st: &Option<PatSt>) -> String {
+        match st {
+            None => "root".into(),
+            Some(st) => format!("{} {} {} / {}: signature received through {:?}, key through {:?}; verify, and verify for the neighbouring message", C::G, st.s.name(), self.keys[st.k].0, self.msgs[st.m].0, st.sig_c, st.pk_c),
+        }
+    }
+    fn required_outcomes(&self) -> Vec<String> {
+        vec!["pattern:received-and-accepted".into()]
+    }
+    fn check(&self, st: &Option<PatSt>, o: &mut Obs) {
+        let Some(st) = st else { return };
+        o.nontrivial = true;
+        let g = C::G;
+        let sk = &self.keys[st.k].1;
+        let msg = &self.msgs[st.m].1;
+        let sig = sk.sign(lib_scheme(st.s), msg).expect("honest sign");
+        let pk = sk.public_key();
+        let want = rf::verify::<C::R>(&Vec::<u8>::from(&pk), st.s, msg, &pt(sig.as_raw_value()));
+        let r = guard(|| -> Result<(bool, bool), String> {
+            let rsig = if st.sig_c == Codec::None { sig } else { transport_sig::<C>(&sig, st.sig_c)? };
+            let rpk = if st.pk_c == Codec::None { pk } else { transport_pk::<C>(&pk, st.pk_c)? };
+            let mut other = msg.clone();
+            other.push(0);
+            Ok((rsig.verify(&rpk, msg).is_ok(), rsig.verify(&rpk, &other).is_ok()))
+        });
+        o.calls(4);
+        let what = if st.k == 0 { "signature-pattern" } else { "key-pattern" };
+        let ok = matches!(r, Ok(Ok((true, false)))) && want;
+        o.outcome(if ok { "pattern:received-and-accepted" } else { "pattern:lost-or-wrong" });
+        o.expect(&format!("C02:searched-pattern:{}:{}:{}:sig-{:?}:pk-{:?}", g, st.s.name(), what, st.sig_c, st.pk_c), ok, "received, accepted for its message, rejected for the neighbour (the reference accepts)", &format!("{:?}", r));
+    }
+}
+
 pub fn models(tier: Tier, seed: u64) -> Vec<Box<dyn DynModel>> {
     vec![
         bounded(M02::<Bls12381G1Impl>::new(tier, seed), 2),
         bounded(M02::<Bls12381G2Impl>::new(tier, seed), 2),
+        bounded(M02Pattern::<Bls12381G1Impl>::new(seed), 1),
+        bounded(M02Pattern::<Bls12381G2Impl>::new(seed), 1),
     ]
 }
 
